@@ -113,9 +113,10 @@ class Pipe:
 class RawDribble(io.RawIOBase):
     """Non-seekable raw source (socket / pipe / chunked HTTP body)."""
 
-    def __init__(self, pipe: Pipe) -> None:
+    def __init__(self, pipe: Pipe, at_least: int = 1) -> None:
         super().__init__()
         self.pipe = pipe
+        self.at_least = at_least
 
     def readable(self) -> bool:
         return True
@@ -125,6 +126,11 @@ class RawDribble(io.RawIOBase):
 
     def readinto(self, b) -> int:
         data = self.pipe.take(len(b))
+        while data and len(data) < min(self.at_least, len(b)):
+            more = self.pipe.take(len(b) - len(data))
+            if not more:
+                break
+            data += more
         n = len(data)
         b[:n] = data
         return n
@@ -187,6 +193,88 @@ class AutoCloseRaw(io.RawIOBase):
         return n
 
 
+class GreedyBody(io.IOBase):
+    """urllib3-v2 / addinfourl style body: derives from io.IOBase only, not seekable, and read(n) /
+    readinto(b) do not return before n bytes have arrived (or the body ended). Asking it for more than the
+    current frame needs therefore blocks on a live stream and loses what it had collected when the
+    connection breaks."""
+
+    def __init__(self, pipe: Pipe) -> None:
+        super().__init__()
+        self.pipe = pipe
+
+    def readable(self) -> bool:
+        return True
+
+    def seekable(self) -> bool:
+        return False
+
+    def _fill(self, n: int) -> bytes:
+        out = bytearray()
+        while len(out) < n:
+            chunk = self.pipe.take(n - len(out))      # may raise (reset) - what was collected is lost
+            if not chunk:
+                break
+            out += chunk
+        return bytes(out)
+
+    def read(self, amt=None) -> bytes:
+        if amt is None or amt < 0:
+            out = bytearray()
+            while True:
+                chunk = self.pipe.take(1 << 16)
+                if not chunk:
+                    return bytes(out)
+                out += chunk
+        return self._fill(amt)
+
+    def readinto(self, b) -> int:
+        data = self._fill(len(b))
+        b[:len(data)] = data
+        return len(data)
+
+
+class StrictBuffered(io.BufferedIOBase):
+    """http.client.HTTPResponse style: a BufferedIOBase whose read() means 'the whole body' and whose
+    read(n) wants n >= 0 - read(-1) is not the same call (on a real response it reads past the body)."""
+
+    def __init__(self, pipe: Pipe) -> None:
+        super().__init__()
+        self.pipe = pipe
+
+    def readable(self) -> bool:
+        return True
+
+    def seekable(self) -> bool:
+        return False
+
+    def read(self, amt=None) -> bytes:
+        if amt is None:
+            out = bytearray()
+            while True:
+                chunk = self.pipe.take(1 << 16)
+                if not chunk:
+                    return bytes(out)
+                out += chunk
+        if amt < 0:
+            raise OSError("read(-1) on an HTTP response reads past the end of the body")
+        out = bytearray()
+        while len(out) < amt:
+            chunk = self.pipe.take(amt - len(out))
+            if not chunk:
+                break
+            out += chunk
+        return bytes(out)
+
+    def read1(self, amt=-1) -> bytes:
+        return self.pipe.take(amt if amt and amt > 0 else 1 << 16)
+
+    def readinto(self, b) -> int:
+        data = self.read(len(b))
+        b[:len(data)] = data
+        return len(data)
+
+
 class _NullRawWriter(io.RawIOBase):
     def writable(self) -> bool:
         return True
@@ -245,8 +333,9 @@ class SeekableRaw(io.RawIOBase):
         return k
 
 
-FRONTENDS = ("bytesio", "raw", "buffered", "seekable_buffered", "gzip", "duck", "rwpair", "autoclose")
-LIVE_FRONTENDS = ("raw", "buffered", "duck", "rwpair", "autoclose")
+FRONTENDS = ("bytesio", "raw", "buffered", "seekable_buffered", "gzip", "duck", "rwpair", "autoclose", "greedy",
+             "strict", "gzip_pipe")
+LIVE_FRONTENDS = ("raw", "buffered", "duck", "rwpair", "autoclose", "greedy", "strict")
 
 
 def open_frontend(kind: str, sim: Sim, data: bytes | None = None, pipe: Pipe | None = None,
@@ -272,6 +361,16 @@ def open_frontend(kind: str, sim: Sim, data: bytes | None = None, pipe: Pipe | N
             comp = gzip.compress(data, mtime=0)
         f = gzip.GzipFile(fileobj=io.BytesIO(comp), mode="rb")
         return f, None
+    if kind == "gzip_pipe":
+        # gzip.open(response): a GzipFile (which always claims to be seekable) over a non-seekable raw
+        # source that short-reads
+        assert data is not None
+        comp = gzip.compress(data, mtime=0)
+        p2 = Pipe(sim, comp)
+        p2.policy = policy
+        # (gzip reads its two magic bytes with one read(2) and gives up on a 1-byte answer, so this raw
+        #  source answers with at least 2 bytes whenever 2 are asked for; every other short read is legal)
+        return gzip.GzipFile(fileobj=RawDribble(p2, at_least=2), mode="rb"), p2
     if kind == "seekable_buffered":
         assert data is not None
         raw = SeekableRaw(sim, preamble + data, policy)
@@ -290,6 +389,10 @@ def open_frontend(kind: str, sim: Sim, data: bytes | None = None, pipe: Pipe | N
         return DuckBody(pipe), pipe
     if kind == "autoclose":
         return AutoCloseRaw(pipe), pipe
+    if kind == "greedy":
+        return GreedyBody(pipe), pipe
+    if kind == "strict":
+        return StrictBuffered(pipe), pipe
     if kind == "rwpair":
         # what socket.makefile("rwb") returns: a BufferedIOBase that is not a BufferedReader
         return io.BufferedRWPair(raw, _NullRawWriter(), bufsize or io.DEFAULT_BUFFER_SIZE), pipe
